@@ -395,6 +395,9 @@ func childMain(o *common.Opts, dir string) {
 				continue
 			}
 			if c.Kind == "iso" {
+				if atomic.LoadInt32(&stalls) >= 2 {
+					continue
+				}
 				wg.Add(1)
 				go func(i int, c *tcase) {
 					defer wg.Done()
@@ -408,6 +411,9 @@ func childMain(o *common.Opts, dir string) {
 						outs[i].Err = err.Error()
 					}
 					reqAns[i] = problem
+					if problem != "" {
+						atomic.AddInt32(&stalls, 1)
+					}
 					ran[i] = true
 					jr.log("D", i)
 				}(i, c)
